@@ -1,4 +1,5 @@
-import GV.Proofs.Engine
+import GV.Proofs.Compose
+import GV.Gen.StateMaps
 /-!
   C12 — Outbound messages keep their order and drive the state machine in that order.
 
@@ -72,20 +73,76 @@ theorem nothing_sent_after_refusal (evs : List Ev) {s s' : S}
     s'.wire = s.wire ∧ s'.sendTrans = s.sendTrans ∧ s'.sendDead = true :=
   frozen_run (inv_reachable evs h0) hd evs' h
 
-/-- The full statement includes "when the caller uses the protocol correctly (including client
-    pipelining) the peer accepts the whole conversation".  That clause is about TWO engines
-    composed through two byte streams; it is not proved here (it is exercised by the `pair`
-    ops: two real engines back to back).  What is proved about it is the single-engine half:
-    both endpoints apply transitions only under the agency discipline along one state machine
-    (`interleaving_respects_agency`), and the wire carries the queue in order
-    (`wire_is_queue_order`). -/
-def C12_full : Prop :=
-  ∀ (mm : Machine) (evsA evsB : List Ev) (a b : S),
-    run mm 1 (init mm) evsA = some a → run mm 2 (init mm) evsB = some b →
-    -- the two byte streams connect the engines
-    (∃ r, a.wire = b.inb ++ r) → (∃ r, b.wire = a.inb ++ r) →
-    -- the client never had a send refused
-    a.sendDead = false → b.recvDead = false
+/-! ### the peer accepts the whole conversation (two engines composed)
+
+  `GV.Engine.Pair` is a client engine and a server engine running the same state machine,
+  connected by two lossless FIFO streams (a `rq x` event of one side is enabled only when `x`
+  is the next unread message the other side has written).  Everything else — schedules of
+  all ten goroutines, what the two applications enqueue and when (pipelining of any depth) —
+  is unconstrained. -/
+
+theorem agencyOf_le_two (mm : Machine) (h : ∀ s ∈ mm.states, s.agency ≤ 2) (q : Nat) :
+    mm.agencyOf q ≤ 2 := by
+  unfold Machine.agencyOf Machine.stateOf
+  cases hf : mm.states.find? (fun s => s.id = q) with
+  | none => simp
+  | some s => simpa using h s (List.mem_of_find?_eq_some hf)
+
+/-- every generated machine uses only the three agency values -/
+theorem gen_agency_le_two : ∀ mm ∈ GV.Gen.StateMaps.all, ∀ s ∈ mm.states, s.agency ≤ 2 := by decide
+
+/-- **If one side refuses a message, the other side has not applied that message**: the
+    sender's own check of that message (its local state transition) has not succeeded — and,
+    the receiver's state being exactly the state in which the sender will check it
+    (`GV.Engine.merge_unique`), it never will.  Contrapositive: whatever the sender's engine
+    accepts from its caller, the peer's engine accepts from the wire. -/
+theorem refused_means_sender_did_not_apply (hag : ∀ q, m.agencyOf q ≤ 2) (evs : List PEv) {p : Pair}
+    (h : prun m (pinit m) evs = some p) :
+    (∀ x, p.b.recvRej = some x → p.a.sendTrans.length ≤ p.b.hlog.length) ∧
+    (∀ y, p.a.recvRej = some y → p.b.sendTrans.length ≤ p.a.hlog.length) := by
+  have hi := pinv_reachable evs h
+  constructor
+  · intro x hx
+    simpa using refusal_not_applied (swap12 hag) hi.ia hi.ma hi.ib hi.mb hi.cb hi.ca hx
+  · intro y hy
+    simpa using refusal_not_applied (swap21 hag) hi.ib hi.mb hi.ia hi.ma hi.ca hi.cb hy
+
+/-- **When the caller uses the protocol correctly the peer accepts the whole conversation**:
+    in every reachable state of the composed system in which the client engine has applied
+    every message it wrote (no pipelined transition pending — `sendTrans ++ pendT = wire`), the
+    server engine has refused nothing; and symmetrically.  Holds for any pipelining depth. -/
+theorem conforming_accepted (hag : ∀ q, m.agencyOf q ≤ 2) (evs : List PEv) {p : Pair}
+    (h : prun m (pinit m) evs = some p) :
+    (p.a.pendT = [] → p.b.recvRej = none) ∧ (p.b.pendT = [] → p.a.recvRej = none) := by
+  have hi := pinv_reachable evs h
+  have hr := refused_means_sender_did_not_apply hag evs h
+  constructor
+  · intro hp
+    cases hx : p.b.recvRej with
+    | none => rfl
+    | some x =>
+      have h1 := hr.1 x hx
+      have hreq : p.b.reqR = none := (hi.ib.rcv.deadR (hi.ib.rcv.rejR (by simp [hx]))).1
+      have hl := hi.cb.length_le
+      rw [hi.ib.rcv.inbOrder, hx, hreq, ← hi.ia.snd.transWire, hp] at hl
+      simp at hl
+      omega
+  · intro hp
+    cases hx : p.a.recvRej with
+    | none => rfl
+    | some x =>
+      have h1 := hr.2 x hx
+      have hreq : p.a.reqR = none := (hi.ia.rcv.deadR (hi.ia.rcv.rejR (by simp [hx]))).1
+      have hl := hi.ca.length_le
+      rw [hi.ia.rcv.inbOrder, hx, hreq, ← hi.ib.snd.transWire, hp] at hl
+      simp at hl
+      omega
+
+/-- instance for every mini-protocol of the running code -/
+theorem conforming_accepted_gen : ∀ mm ∈ GV.Gen.StateMaps.all, ∀ (evs : List PEv) (p : Pair),
+    prun mm (pinit mm) evs = some p →
+    (p.a.pendT = [] → p.b.recvRej = none) ∧ (p.b.pendT = [] → p.a.recvRej = none) :=
+  fun mm hm evs _ h => conforming_accepted (agencyOf_le_two mm (gen_agency_le_two mm hm)) evs h
 
 /-! ### non-vacuity: pipelining in the keep-alive client model (two messages enqueued up front;
     the second is written in the same batch and its transition is applied later) -/
@@ -108,5 +165,14 @@ example : ((run ka 1 (init ka)
       (fun s => (s.wire, s.sendDead))) = some ([], true) := by decide
 /-- the model does not admit a send transition without the token -/
 example : (run ka 1 (init ka) [.state 1 true, .enq ⟨0, 0⟩, .deq ⟨0, 0⟩ 1]).isNone = true := by decide
+
+/-- the composed system is not vacuous: client sends KeepAlive, server reads and handles it -/
+example : ((prun ka (pinit ka)
+    [.A (.state 1 true), .B (.state 1 true), .A (.enq ⟨0, 0⟩), .A .stok, .A (.deq ⟨0, 0⟩ 1),
+     .A (.strans ⟨0, 0⟩ false), .A (.trans 1 2 0), .A .seg,
+     .B (.rq ⟨0, 0⟩), .B .rtok, .B (.rtrans ⟨0, 0⟩), .B (.trans 1 2 0), .B (.handle 0)]).map
+      (fun p => (p.b.handled, p.b.st))) = some ([⟨0, 0⟩], 2) := by decide
+/-- a message the client has not written cannot be read by the server -/
+example : (prun ka (pinit ka) [.A (.state 1 true), .B (.state 1 true), .B (.rq ⟨0, 0⟩)]).isNone = true := by decide
 
 end GV.Props.C12
